@@ -146,8 +146,6 @@ class Cov(np.ndarray):
 
         self.base.setfield(cov, dtype=float)
         self._data["frame"] = frame
-        if frame not in ("TNW", "QSW"):
-            self.orb.frame = frame
 
     @property
     def _frame(self):
